@@ -12,7 +12,7 @@ EXTENDS System, Json, IOUtils, TLC
 VARIABLES tid, l
 Sessions == ndJsonDeserialize(IOEnv.TRACE_FILE)
 NS == Len(Sessions)
-tvars == <<obj, disk, tid, l>>
+tvars == <<obj, disk, fs, tid, l>>
 
 Empty == [fmt |-> "sm", items |-> <<>>, charts |-> <<>>]
 Evs == Sessions[tid].events
@@ -44,28 +44,37 @@ Act(e) ==
     [] e.op = "countnotes" -> CountNotes(e.j, e.res)
     [] e.op = "readtiming" -> ReadTiming(e.name, e.res)
     [] e.op = "timenotes" -> TimeNotes(e.j, e.opt, e.res)
+    [] e.op = "writefile" -> WriteFile(e.name, e.text)
+    [] e.op = "openfile" -> OpenFile(e.name, e.strict, e.res)
+    [] e.op = "mutatefile" -> MutateFile(e.name, e.out, e.bak, e.edits, e.body, e.res, e.texts)
 
 (* a save of an object outside the serializer's domain (escaping gaps, chart without notes) is skipped, not judged *)
 OutOfDomain(e) == \/ e.op = "save" /\ ~Saveable(obj)
                   \/ e.op = "tosm" /\ ~ToSMInDomain(obj, e.tmpl, e.ctmpl, e.beh)
                   \/ e.op = "countnotes" /\ ~CountInDomain(obj, e.j)
                   \/ e.op = "timenotes" /\ ~TimeNotesInDomain(obj, e.j)
+                  \/ e.op = "writefile" /\ ~Saveable(obj)
+                  \/ e.op = "mutatefile" /\ ~MutateInDomain(e.name, e.out, e.bak, e.edits)
+FsOps == {"writefile", "openfile", "mutatefile"}
+LoggedFs(e) == [i \in DOMAIN e.fsafter |-> [n |-> e.fsafter[i].n, t |-> e.fsafter[i].t]]
 
 Consume == /\ tid <= NS /\ l <= Len(Evs) /\ ~OutOfDomain(Ev)
            /\ Act(Ev)
            /\ obj' = After(Ev)                       \* the logged state is the state the specification reaches
+           /\ (IF Ev.op \in FsOps THEN FAsSet(fs') = FAsSet(LoggedFs(Ev))     \* ... and so are the files
+               ELSE UNCHANGED fs)
            /\ l' = l + 1 /\ tid' = tid
 Skip == /\ tid <= NS /\ l <= Len(Evs) /\ OutOfDomain(Ev)
         /\ PrintT(ToJson([id |-> Sessions[tid].id, verdict |-> "domain", at |-> l, op |-> Ev.op]))
-        /\ tid' = tid + 1 /\ l' = 1 /\ obj' = Empty /\ disk' = <<>>
+        /\ tid' = tid + 1 /\ l' = 1 /\ obj' = Empty /\ disk' = <<>> /\ fs' = <<>>
 Reject == /\ tid <= NS /\ l <= Len(Evs) /\ ~OutOfDomain(Ev)
           /\ ~ENABLED Consume
           /\ PrintT(ToJson([id |-> Sessions[tid].id, verdict |-> "REJECT", at |-> l, op |-> Ev.op]))
-          /\ tid' = tid + 1 /\ l' = 1 /\ obj' = Empty /\ disk' = <<>>
+          /\ tid' = tid + 1 /\ l' = 1 /\ obj' = Empty /\ disk' = <<>> /\ fs' = <<>>
 Accept == /\ tid <= NS /\ l > Len(Evs)
           /\ PrintT(ToJson([id |-> Sessions[tid].id, verdict |-> "ACCEPT", at |-> l - 1, op |-> ""]))
-          /\ tid' = tid + 1 /\ l' = 1 /\ obj' = Empty /\ disk' = <<>>
-TraceInit == obj = Empty /\ disk = <<>> /\ tid = 1 /\ l = 1
+          /\ tid' = tid + 1 /\ l' = 1 /\ obj' = Empty /\ disk' = <<>> /\ fs' = <<>>
+TraceInit == obj = Empty /\ disk = <<>> /\ fs = <<>> /\ tid = 1 /\ l = 1
 TraceNext == Consume \/ Skip \/ Reject \/ Accept
 TraceSpec == TraceInit /\ [][TraceNext]_tvars
 InvType == tid <= NS => TypeOK
